@@ -101,7 +101,8 @@ def emit_brace(w, f, depth, rnd, parent_counts):
             w.tags.add("blank-line")
         if f.style.get("blocks") and k % 5 == 3 and k + 2 < f.body and not any(j in f.children_at for j in (k + 1, k + 2)):
             pass
-        own.add(w.add(inner + STMTS_C[k % len(STMTS_C)] + ("  // t" if f.style.get("comments") and k % 4 == 0 else "")))
+        stmt = ";" if f.style.get("terse") else STMTS_C[k % len(STMTS_C)]     # terse: every statement line is a single token
+        own.add(w.add(inner + stmt + ("  // t" if f.style.get("comments") and k % 4 == 0 else "")))
     if f.style.get("template"):
         # a template literal whose text starts right after the backtick at the end of the line; the literal's text is one
         # token beginning on the first line, the closing backtick and ';' begin on the last line
@@ -144,7 +145,7 @@ def emit_py(w, f, depth, rnd):
         if f.style.get("blank") and k % 4 == 2:
             w.add("")
             w.tags.add("blank-line")
-        text = inner + STMTS_PY[k % len(STMTS_PY)]
+        text = inner + ("pass" if f.style.get("terse") else STMTS_PY[k % len(STMTS_PY)])
         last_line = w.add(text + ("  # t" if f.style.get("comments") and k % 4 == 0 else ""))
         last_len = len(text)
         own.add(last_line)
@@ -242,6 +243,20 @@ def programs(lang, tier="quick", seed=0):
         w = render(lang, [Func(fresh(), 3, {1: Func(fresh(), 3, {1: Func(fresh(), 1)})})], rnd)
         w.tags.add("nesting-depth-3")
         yield w
+        # the same shapes with single-token statement lines (a token lost or gained moves a whole line)
+        t = {"terse": True}
+        w = render(lang, [Func(fresh(), 3, {1: Func(fresh(), 2, style=dict(t))}, style=dict(t))], rnd)
+        w.tags.add("terse")
+        yield w
+        w = render(lang, [Func(fresh(), 4, {1: Func(fresh(), 2, style=dict(t)), 2: Func(fresh(), 1, style=dict(t))}, style=dict(t))], rnd)
+        w.tags.add("terse")
+        yield w
+        for mid_pos, in_pos in ((1, 1), (0, 0), (1, 2), (2, 0)):
+            w = render(lang, [Func(fresh(), 3, {mid_pos: Func(fresh(), 3, {in_pos: Func(fresh(), 1, style=dict(t))}, style=dict(t))},
+                                   style=dict(t))], rnd)
+            w.tags.add("nesting-depth-3")
+            w.tags.add("terse")
+            yield w
     # 4. special header shapes
     if lang in ("JavaScript", "TypeScript"):
         yield render(lang, [Func(fresh(), 2, kind="arrow")], rnd)
